@@ -65,10 +65,27 @@ class StepCap(Exception):
     """Run exceeded its yield-point budget (reported as a liveness problem)."""
 
 
+class _Baton:
+    """Binary hand-over signal (a bare lock is several times cheaper than threading.Semaphore;
+    baton passing guarantees release() is never called twice without an acquire() in between)."""
+
+    __slots__ = ("_l",)
+
+    def __init__(self):
+        self._l = threading.Lock()
+        self._l.acquire()
+
+    def acquire(self):
+        self._l.acquire()
+
+    def release(self):
+        self._l.release()
+
+
 class Task:
     def __init__(self, sim, name, fn, args):
         self.sim, self.name, self.fn, self.args = sim, name, fn, args
-        self.sem = threading.Semaphore(0)
+        self.sem = _Baton()
         self.wake = None  # sim time at which runnable (None => blocked)
         self.done = False
         self.exc = None
